@@ -125,6 +125,29 @@ def run_case(case, env):
                     f['msg'] = f'after truncate_raggedarray(ra, {newn}) on the live object: ' + f['msg']
                 if total2 > 0:
                     sigs.add((lang, case['vtype'], case['itype'], case['bo'], atom, case['pattern'], 'after-truncate'))
+            # ---- ... then grow it back to the ORIGINAL number of subarrays with subarrays of other lengths and ask again
+            #      (anything remembered per object under the old subarray count would now be wrong)
+            if not res.fails:
+                extra = [gens.distinct_values(rng, dtype, (1 + (k + newn) % 3,) + tuple(atom)) for k in range(nsub - newn)]
+                ra.iterappend(x for x in extra)
+                model3 = list(model2) + extra
+                values3 = np.concatenate(model3, axis=0).astype(dtype)
+                ends = np.cumsum([len(m) for m in model3])
+                indices3 = np.stack([np.concatenate([[0], ends[:-1]]), ends], axis=1).astype(indices.dtype)
+                res.count('mon.after_regrow')
+                for lang in langsem.RAGGED_LANGS:
+                    code = ra.readcode(lang)
+                    if code is None:
+                        continue
+                    n0 = len(res.fails)
+                    if lang in ('darr', 'numpymemmap'):
+                        check_executed(res, lang, code, path, model3, nsub, True, case)
+                    else:
+                        check_foreign(res, lang, code, path, model3, values3, indices3, atom, case)
+                    for f in res.fails[n0:]:
+                        f['mech'] = 'after-regrow:' + f['mech']
+                        f['msg'] = f'after truncating to {newn} and appending {nsub - newn} other subarrays through the live object: ' + f['msg']
+                    sigs.add((lang, case['vtype'], case['itype'], case['bo'], atom, case['pattern'], 'after-regrow'))
         res.sig = {repr(s) for s in sigs}
         res.nontrivial = bool(sigs)
         res.evals = max(1, len(sigs))
